@@ -49,6 +49,9 @@ type interp struct {
 	effect  func(it *interp, call *ast.CallExpr) (string, bool)
 	unknown []string
 	used    map[string]bool // atoms actually consulted
+	// free: boolean sub-expressions the interpreter cannot resolve become free
+	// atoms ("?<expr>"): the enumeration then covers both outcomes
+	free map[string]bool
 }
 
 func (it *interp) note(format string, args ...any) {
@@ -227,6 +230,15 @@ func (it *interp) evalBool(e ast.Expr) (bool, bool) {
 				return !it.atom("nil"), true
 			}
 		}
+	}
+	// an opaque boolean: treat it as a free atom
+	key := "?" + exprStr(e)
+	if v, ok := it.atoms[key]; ok {
+		it.used[key] = true
+		return v, true
+	}
+	if it.free != nil && len(it.free) < 4 {
+		it.free[key] = true
 	}
 	it.note("cannot evaluate %s", exprStr(e))
 	return false, false
@@ -456,25 +468,43 @@ func enumerate(f *Func, body []ast.Stmt, errObjs map[types.Object]bool, atoms []
 	consistent func(map[string]bool) bool,
 	effect func(*interp, *ast.CallExpr) (string, bool)) (rows []row, unknown []string, used map[string]bool) {
 	used = map[string]bool{}
-	n := len(atoms)
-	for mask := 0; mask < 1<<n; mask++ {
-		as := map[string]bool{}
-		for i, a := range atoms {
-			as[a] = mask&(1<<i) != 0
-		}
-		if consistent != nil && !consistent(as) {
-			continue
-		}
-		it := &interp{f: f, atoms: as, errObjs: errObjs, env: map[types.Object]any{}, effect: effect, used: used}
-		o, ok := it.exec(body)
-		if !ok {
-			unknown = append(unknown, it.unknown...)
-			if len(unknown) > 5 {
-				return rows, unknown, used
+	free := map[string]bool{}
+	for attempt := 0; attempt < 5; attempt++ {
+		rows, unknown = nil, nil
+		n := len(atoms)
+		grew := false
+		for mask := 0; mask < 1<<n; mask++ {
+			as := map[string]bool{}
+			for i, a := range atoms {
+				as[a] = mask&(1<<i) != 0
 			}
-			continue
+			if consistent != nil && !consistent(as) {
+				continue
+			}
+			it := &interp{f: f, atoms: as, errObjs: errObjs, env: map[types.Object]any{}, effect: effect, used: used, free: free}
+			o, ok := it.exec(body)
+			if !ok {
+				unknown = append(unknown, it.unknown...)
+				continue
+			}
+			rows = append(rows, row{Atoms: as, Outcome: o, Effects: it.effects})
 		}
-		rows = append(rows, row{Atoms: as, Outcome: o, Effects: it.effects})
+		// opaque conditions met on the way become atoms of their own and the table is rebuilt
+		for k := range free {
+			have := false
+			for _, a := range atoms {
+				if a == k {
+					have = true
+				}
+			}
+			if !have {
+				atoms = append(atoms, k)
+				grew = true
+			}
+		}
+		if !grew {
+			break
+		}
 	}
 	return rows, unknown, used
 }
